@@ -854,7 +854,7 @@ class NativeFormatter(Formatter):
             # Search for the placeholder entry we created in _parse_tokenized_dict(),
             # and insert back the original block_comment.
             search_pattern = rf"LINECOMMENT{key:06d}\s+LINECOMMENT{key:06d};"
-            s = re.sub(search_pattern, line_comment, s)
+            s = re.sub(search_pattern, lambda _, repl=line_comment: repl, s)
 
         return s
 
